@@ -38,6 +38,8 @@ type pRun struct {
 	cancel context.CancelFunc
 
 	ptyM, ptyS   *os.File
+	ptyInOnly    bool
+	ptyHung      bool
 	termios0     interface{}
 	pipeR, pipeW *os.File
 	pipeClosed   bool
@@ -128,6 +130,19 @@ func (r *pRun) setup() error {
 		}
 		r.file = f
 		opts = append(opts, tea.WithInput(f))
+	case "ptyin":
+		// a real terminal device for input only (the output stays observable in the buffer): raw mode is entered and
+		// must be left again; "pty-hangup" closes the master so that restoring it fails at exit
+		m, sl, err := openPty()
+		if err != nil {
+			return err
+		}
+		r.ptyM, r.ptyS = m, sl
+		r.ptyInOnly = true
+		if t, err := getTermios(sl); err == nil {
+			r.termios0 = t
+		}
+		opts = append(opts, tea.WithInput(sl))
 	case "pty":
 		// a real terminal device for input and output: raw mode, window size, SIGWINCH
 		m, sl, err := openPty()
@@ -434,6 +449,13 @@ func (r *pRun) step(i int, st pStep) bool {
 		time.Sleep(time.Duration(st.Us) * time.Microsecond)
 	case "api":
 		r.startAPI(st.Kind, st.N, i)
+	case "pty-hangup":
+		if r.ptyM == nil {
+			h.addErr("step %d: pty-hangup without a pty", i)
+		} else {
+			r.ptyHung = true
+			_ = r.ptyM.Close()
+		}
 	case "winsize":
 		if r.ptyM == nil {
 			h.addErr("step %d: winsize without a pty", i)
@@ -571,7 +593,7 @@ func runProgramScenario(sc *pScenario) (res pResult) {
 	}
 
 	// snapshot (a pty is drained by a goroutine: let it catch up)
-	if r.ptyM != nil {
+	if r.ptyM != nil && !r.ptyInOnly {
 		last, quiet := h.out.Len(), 0
 		for i := 0; i < 60 && quiet < 4; i++ {
 			time.Sleep(5 * time.Millisecond)
@@ -615,7 +637,7 @@ func runProgramScenario(sc *pScenario) (res pResult) {
 	res.Events = append([]pEvent{}, h.events...)
 	h.emu.Unlock()
 	res.Output = pToInts(out)
-	if r.ptyS != nil {
+	if r.ptyS != nil && !r.ptyHung {
 		t1, err := getTermios(r.ptyS)
 		if t0, ok := r.termios0.(*unix.Termios); ok && err == nil {
 			eq := termiosEqual(t0, t1)
@@ -646,7 +668,9 @@ func runProgramScenario(sc *pScenario) (res pResult) {
 	}
 	if r.ptyM != nil {
 		_ = r.ptyS.Close()
-		_ = r.ptyM.Close()
+		if !r.ptyHung {
+			_ = r.ptyM.Close()
+		}
 	}
 	if r.file != nil {
 		_ = r.file.Close()
